@@ -1,6 +1,9 @@
 package main
 
-import "strings"
+import (
+	"regexp"
+	"strings"
+)
 
 // canonCall maps the names under which a call may be counted or referred to in a contract
 // (ncalls / lastarg / lastret / sink) to one canonical form, so that a clause does not depend on
@@ -45,3 +48,6 @@ func canonQualified(q string) string {
 	}
 	return q
 }
+
+// reCallName finds the call names used in a clause: ncalls("f"), lastarg("f", i), lastret("f", i), called("f")
+var reCallName = regexp.MustCompile(`\b(ncalls|lastarg|lastret|called)\("([^"]+)"`)
